@@ -13,11 +13,14 @@ from vmon.wsgi import RecStream, make_environ, call_app
 
 RULE = ('seeded encoder: payload 0..400 bytes (some up to 200 kB) rich in CR/LF/hex digits, random partition into chunks, '
         'hex case, leading zeros, chunk extensions, trailers; per encoding: legal decode x buffer sizes x fragmentation '
-        'policies, every strict prefix, every single-byte substitution of every framing byte from a 12-symbol alphabet. '
+        'policies, every strict prefix, every single-byte substitution of every framing byte from a 12-symbol alphabet; '
+        'long units: 300 one-byte / 210 two-byte chunks (over 1000 reads per body) with late cuts and late broken data terminators, and peers that '
+        'fall silent for 2.5..400 s of virtual time (vmon/vclock.py, nothing sleeps) before a cut. '
         'Non-trivial = encodings with >=1 data chunk, prefixes/corruptions always; distinct = distinct (bytes, buffer, policy).')
 REQUIRED = ['legal_exact', 'prefix_rejected', 'corruption_rejected', 'corruption_accepted', 'short_read_decodes',
             'wsgi_decodes', 'cut_in_size_line', 'cut_in_data', 'cut_after_data_cr', 'cut_in_last_chunk_line',
-            'data_crlf_corruption_rejected', 'chunk_larger_than_buffer', 'with_extension', 'with_trailer']
+            'data_crlf_corruption_rejected', 'chunk_larger_than_buffer', 'with_extension', 'with_trailer',
+            'stalled_peer_decodes', 'decodes_with_1000_or_more_reads']
 ASSUMPTIONS = ['wsgi.input.read(n) may return 1..n bytes while data is available (PEP 3333)',
                'exact decoding is demanded only when every size line (digits+extension+CRLF) fits the configured buffer, '
                'which bounds the size-line scan by design; longer size lines must give exact acceptance or a client error',
@@ -28,8 +31,8 @@ ALPHABET = [b'0', b'1', b'a', b'F', b'g', b';', b'\r', b'\n', b' ', b'-', b'\x00
 
 def plan(tier, seed):
     if tier == 'quick':
-        return [{'kind': 'enc', 'n': 6, 'sub': i, 'big': 0} for i in range(8)]
-    return [{'kind': 'enc', 'n': 30, 'sub': i, 'big': 2} for i in range(48)]
+        return [{'kind': 'enc', 'n': 6, 'sub': i, 'big': 0} for i in range(8)] + [{'kind': 'long', 'n': 12}]
+    return [{'kind': 'enc', 'n': 30, 'sub': i, 'big': 2} for i in range(48)] + [{'kind': 'long', 'n': 60, 'sub': i} for i in range(6)]
 
 
 def gen_payload(rng, big=False):
@@ -41,7 +44,12 @@ def gen_payload(rng, big=False):
     return bytes(rng.choice(alpha) for _ in range(n))
 
 
-def encode(rng, payload, max_chunks=8):
+def pre_import():
+    from vmon import vclock
+    vclock.install()        # a stalled peer advances virtual time; nothing sleeps
+
+
+def encode(rng, payload, max_chunks=8, partition=None):
     """-> (bytes, roles) ; roles[i] in size/ext/scr/slf/data/dcr/dlf/last/lext/lcr/llf/trailer/fcr/flf"""
     out = bytearray()
     roles = []
@@ -56,7 +64,7 @@ def encode(rng, payload, max_chunks=8):
     if n:
         k = rng.randint(1, min(max_chunks, n))
         cuts = sorted(rng.sample(range(1, n), k - 1)) if k > 1 else []
-    bounds = [0] + cuts + [n]
+    bounds = [0] + cuts + [n] if partition is None else partition
     meta = {'chunks': [], 'ext': False, 'trailer': False, 'max_size_line': 0}
     for a, b in zip(bounds, bounds[1:]):
         if a == b:
@@ -98,12 +106,19 @@ def encode(rng, payload, max_chunks=8):
 
 
 def mk_policy(desc):
-    kind, arg = desc
+    kind, arg = desc[0], desc[1]
     if kind == 'rand':
         return ('rand', random.Random(arg))
     if kind == 'list':
         return ('list', arg)
     return kind
+
+
+def stalls_of(pdesc):
+    """optional third element of a policy description: {read index: virtual seconds of silence before that read}"""
+    if len(pdesc) > 2 and pdesc[2]:
+        return {int(k): float(v) for k, v in dict(pdesc[2]).items()}
+    return None
 
 
 _steps = {}
@@ -126,6 +141,7 @@ def decode_direct(enc, buf, pdesc):
     from ombott.request_pkg.errors import BodyParsingError, RequestError
     from vmon.probes import BudgetExceeded
     st = RecStream(enc, mk_policy(pdesc))
+    st.stalls = stalls_of(pdesc)
     sc = steps()
     sc.arm(budget(enc))
     try:
@@ -157,6 +173,7 @@ def decode_wsgi(enc, buf, pdesc):
         def h():
             return app.request.body.read()
     st = RecStream(enc, mk_policy(pdesc))
+    st.stalls = stalls_of(pdesc)
     env = make_environ('POST', '/c', stream=st, chunked=True, content_length=None)
     sc = steps()
     sc.arm(budget(enc) + 20000)
@@ -224,7 +241,11 @@ def check_one(ctx, enc, buf, pdesc, mode, expect, payload, fits, what, extra='')
     wit = {'unit': {'kind': 'one', 'enc': enc.decode('latin1'), 'buf': buf, 'policy': list(pdesc), 'mode': mode,
                     'expect': expect, 'payload': payload.decode('latin1') if payload is not None else None,
                     'fits': fits, 'what': what}}
-    desc = f'{what}{extra} mode={mode} buf={buf} policy={pdesc[0]} enc={enc[:60]!r}{"..." if len(enc) > 60 else ""}'
+    if st.stalls:
+        ctx.count('stalled_peer_decodes')
+    if len(st.reads) >= 1000:
+        ctx.count('decodes_with_1000_or_more_reads')
+    desc = f'{what}{extra} mode={mode} buf={buf} policy={pdesc[0]}{" stalls=" + str(st.stalls) if st.stalls else ""} enc={enc[:60]!r}{"..." if len(enc) > 60 else ""}'
     if verdict == 'fault':
         ctx.violation(f'chunked:{what}:server-fault', f'{desc}: {val}', wit)
         return verdict
@@ -324,9 +345,51 @@ def enc_unit(ctx, unit):
         ctx.count('encodings')
 
 
+def long_unit(ctx, unit):
+    """Bodies that arrive in very many tiny chunks (thousands of reads) and peers that fall silent for seconds of
+    virtual time: legal ones decode exactly, cuts and broken data terminators late in the stream are still rejected."""
+    rng = ctx.rng
+    for n, step in ((300, 1), (420, 2)):
+        payload = gen_payload(rng)[:0] + bytes(rng.choice(b'\r\n0123456789abcdefXYZ;') for _ in range(n))
+        enc, roles, meta = encode(rng, payload, partition=list(range(0, n, step)) + [n])
+        for buf, pdesc, mode in ((1024, ('full', None), 'wsgi'), (16, ('one', None), 'wsgi'), (64, ('rand', 5), 'direct'), (16, ('full', None), 'direct')):
+            check_one(ctx, enc, buf, pdesc, mode, 'exact', payload, meta['max_size_line'] <= buf, 'legal-many-chunks')
+            ctx.case((enc, buf, repr(pdesc), mode))
+        end = meta['last_line_end']
+        cuts = sorted(set(range(end - 40, end)) | set(rng.sample(range(1, end), 60)))
+        for cut in cuts:
+            mode = 'wsgi' if cut % 3 else 'direct'
+            check_one(ctx, enc[:cut], 1024, rng.choice([('full', None), ('one', None)]), mode, 'reject', payload, True,
+                      'prefix-cut-before-last-chunk', f'[many chunks, cut={cut} at {roles[cut]}]')
+            ctx.case((enc[:cut], 1024, mode))
+        late = [i for i, r in enumerate(roles) if r in ('dcr', 'dlf')][-12:]
+        for pos in late:
+            cor = enc[:pos] + b'x' + enc[pos + 1:]
+            check_one(ctx, cor, 1024, ('full', None), 'wsgi' if pos % 2 else 'direct', 'reject', payload, True,
+                      'chunk-data-not-followed-by-CRLF', f'[many chunks, pos={pos}]')
+            ctx.case((cor, 1024))
+    for _ in range(unit.get('n', 12)):
+        payload = gen_payload(rng)
+        enc, roles, meta = encode(rng, payload)
+        end = meta['last_line_end']
+        for k in range(6):
+            stall = {rng.randint(0, 6): rng.choice([2.5, 30.0, 400.0])}
+            pol = rng.choice(['full', 'one'])
+            mode = 'wsgi' if k % 3 else 'direct'
+            if k == 0:
+                check_one(ctx, enc, 1024, (pol, None, stall), 'wsgi', 'exact', payload, True, 'legal-stalled-peer')
+            else:
+                cut = rng.randrange(1, end)
+                check_one(ctx, enc[:cut], 1024, (pol, None, stall), mode, 'reject', payload, True,
+                          'prefix-cut-before-last-chunk', f'[stalled peer, cut={cut} at {roles[cut]}]')
+            ctx.case((enc, k, pol, mode, repr(stall)))
+
+
 def run_unit(ctx, unit):
     if unit['kind'] == 'enc':
         enc_unit(ctx, unit)
+    elif unit['kind'] == 'long':
+        long_unit(ctx, unit)
     else:
         payload = unit['payload'].encode('latin1') if unit['payload'] is not None else None
         v = check_one(ctx, unit['enc'].encode('latin1'), unit['buf'], tuple(unit['policy']), unit['mode'],
